@@ -785,6 +785,59 @@ func runOwn(c *Case) *verdict {
 	return nil
 }
 
+// runResend: a retained message replayed at QoS >= 1 to a persistent session
+// that loses its connection before acknowledging is re-sent after the resume -
+// it still is the replay of a retained message and must carry the flag.
+func runResend(pubQoS, subQoS int) *verdict {
+	b := bk.New(nil)
+	defer b.Shutdown()
+	fail := func(sig, format string, a ...interface{}) *verdict {
+		return &verdict{sig, fmt.Sprintf(format, a...) + "\n--- event log ---\n" + b.Log.Dump()}
+	}
+	seed, _ := b.Dial("seed")
+	if _, err := seed.ConnectID("c11-seed", true); err != nil {
+		return fail("harness/connect", "%v", err)
+	}
+	if err := seed.Publish("a/b", []byte("kept"), packet.QOS(pubQoS), true); err != nil {
+		return fail("harness/publish", "%v", err)
+	}
+	s, sconn := b.Dial("sub")
+	s.AutoAck = false
+	if _, err := s.ConnectID("c11-resend", false); err != nil {
+		return fail("harness/connect", "%v", err)
+	}
+	if _, err := s.Subscribe([]packet.Subscription{{Topic: "a/#", QOS: packet.QOS(subQoS)}}); err != nil {
+		return fail("harness/subscribe", "%v", err)
+	}
+	isKept := func(g packet.Generic) bool { p, ok := g.(*packet.Publish); return ok && string(p.Message.Payload) == "kept" }
+	i := s.WaitFor(0, isKept, ev.Ceiling())
+	if i < 0 {
+		return fail("replay/missing-retained-message", "the subscription did not replay the retained message")
+	}
+	first := s.Inbox[i].(*packet.Publish)
+	if !first.Message.Retain {
+		return fail("flag/retain-flag-wrong:replay", "the replay of the retained message is not flagged as retained")
+	}
+	s.Drop()
+	if !b.WaitClosed(sconn) {
+		return fail("liveness/client-not-terminated", "subscriber's broker side did not terminate")
+	}
+	s2, _ := b.Dial("sub2")
+	ack, err := s2.ConnectID("c11-resend", false)
+	if err != nil || !ack.SessionPresent {
+		return fail("harness/connect", "resume: %v", err)
+	}
+	j := s2.WaitFor(0, isKept, ev.Ceiling())
+	if j < 0 {
+		return fail("replay/missing-retained-message", "the unacknowledged replay (QoS %d) was not re-sent after the resume", first.Message.QOS)
+	}
+	again := s2.Inbox[j].(*packet.Publish)
+	if !again.Dup || !again.Message.Retain || again.Message.QOS != first.Message.QOS {
+		return fail("flag/retain-flag-wrong:resend", "the replay of the retained message (QoS %d, retain=true) was re-sent after the resume with dup=%v retain=%v qos=%d; it must still be flagged as retained", first.Message.QOS, again.Dup, again.Message.Retain, again.Message.QOS)
+	}
+	return nil
+}
+
 func genBusy(rt *rapid.T) *Case {
 	c := &Case{Subscribers: rapid.IntRange(1, 3).Draw(rt, "subscribers")}
 	for _, tp := range topics {
@@ -1009,6 +1062,19 @@ func TestC11(t *testing.T) {
 				run.Violation(v.sig, v.msg, c)
 			}
 		}
+	}
+	// unacknowledged replay re-sent after a resume
+	if shard == 0 {
+		for _, pq := range []int{1, 2} {
+			for _, sq := range []int{1, 2} {
+				run.Eval(1)
+				if v := runResend(pq, sq); v != nil {
+					run.Violation(v.sig, v.msg, map[string]int{"resend_pub_qos": pq, "resend_sub_qos": sq})
+				}
+			}
+		}
+		run.ClassN("replay-resent-after-resume", 4)
+		run.Exhaustive("retained message (QoS 1-2) replayed to a persistent subscription (QoS 1-2), connection lost before the acknowledgement, resume: the re-sent PUBLISH carries DUP, the retain flag and the same QoS")
 	}
 	// retained publish refused once because of the publisher's own full queue
 	{
